@@ -11,8 +11,9 @@ for d in sorted(glob.glob(os.path.join(ROOT, "seeded", "*", "meta.json"))):
     for c, v in ch.items():
         ls = " ".join(v.get("lines", []))
         if v["exit"] == 1:
-            if "FAILED-OBLIGATION" in ls and "no-failing-input-found" in ls: how.append("%s: failed obligation" % c)
+            if "LINK[" in ls: how.append("%s: through the assume/guarantee link (%s)" % (c, ", ".join(sorted(set(__import__("re").findall(r"LINK\[(C\d+)\]", ls))))))
+            elif "FAILED-OBLIGATION" in ls and "no-failing-input-found" in ls: how.append("%s: failed obligation, no failing input found" % c)
             elif "FAILED-OBLIGATION" in ls: how.append("%s: failed obligation + replayed input" % c)
-            else: how.append("%s: deductive check undecided (tool limit), concrete failing input replayed on the real crate" % c)
+            else: how.append("%s: undecided deductively (tool limit on the changed text) or all discharged; concrete failing input replayed on the real crate" % c)
     print("| %s | %s | %s | %s | %s | %s | %s |" % (m["seed"], m["breaks_property"], m.get("what_was_changed", ""), m.get("needs_in_order_to_manifest", ""),
           ", ".join("%s -> %d" % (c, v["exit"]) for c, v in ch.items()), ", ".join(m.get("caught_by", [])) or "**missed**", "; ".join(how)))
